@@ -114,6 +114,10 @@ type MWSpec struct {
 	// program's "cancel" op cancels it (a session time limit that expires while
 	// a statement runs)
 	Cancel bool `json:"cancel,omitempty"`
+	// Done: the middleware succeeds but the context it returns has already
+	// ended (it derived a context with a limit of its own that ran out, or
+	// cancelled it on its way out)
+	Done bool `json:"done,omitempty"`
 }
 
 // ConnCase is the client side of one connection.
